@@ -338,6 +338,11 @@ def replay_cli(chk, rng, what, only_mode=None):
                 if numpy.abs(d2["density"].to_numpy() - rho2).max() > 1e-6 * rho2.max():
                     chk.violation("run-static:cellmass-option", "--cellmass 123.25 is not applied to the density column", dict(mode=mode))
                     return
+                for col, mod in (("v_s", d2["G_VRH"]), ("v_phi", d2["bm_VRH"]), ("v_p", d2["bm_VRH"] + 4 / 3 * d2["G_VRH"])):
+                    if numpy.abs(d2[col].to_numpy() ** 2 * rho2 - mod.to_numpy()).max() > 1e-5 * numpy.abs(mod.to_numpy()).max():
+                        chk.violation("run-static:cellmass-velocities", "with --cellmass 123.25 the column %s does not satisfy rho v^2 = modulus with the "
+                                      "density of that mass (v^2 rho / modulus = %.4f)" % (col, float((d2[col].to_numpy() ** 2 * rho2 / mod.to_numpy())[0])), dict(mode=mode))
+                        return
         for col, mod in (("v_s", df["G_VRH"]), ("v_phi", df["bm_VRH"]), ("v_p", df["bm_VRH"] + 4 / 3 * df["G_VRH"])):
             if numpy.abs(df[col].to_numpy() ** 2 * df["density"].to_numpy() - mod.to_numpy()).max() > 1e-5 * numpy.abs(mod.to_numpy()).max():
                 chk.violation("run-static:%s[%s]" % (col, mode), "%s^2 * density != modulus" % col, dict(mode=mode))
